@@ -294,9 +294,22 @@ class Catalogue(Relation):
             'cls': st.sampled_from(CLASSES),
             'p': st.integers(0, 9), 'v': st.integers(0, 40),
             'how': st.sampled_from(['assign', 'assign', 'construct']),
+            # astropy's process-wide unit settings: none, or the
+            # dimensionless-angles equivalency enabled around the operation
+            # (what a domain IS does not depend on such a setting)
+            'ambient': st.sampled_from(['none', 'none', 'none',
+                                        'dimensionless_angles']),
         })
 
     def check(self, sp, ctx):
+        if sp.get('ambient') == 'dimensionless_angles':
+            u = _u()
+            ctx.label('ambient:dimensionless_angles')
+            with u.set_enabled_equivalencies(u.dimensionless_angles()):
+                return self._check(sp, ctx)
+        return self._check(sp, ctx)
+
+    def _check(self, sp, ctx):
         cls = sp['cls']
         params = all_params(cls)
         param = params[sp['p'] % len(params)]
